@@ -10,6 +10,7 @@
   function of the events it is handed) are universally quantified.
 -/
 import NemoVerif.Lemmas.Isolation
+import NemoVerif.Lemmas.IsolationConvert
 namespace NemoVerif.C15
 open NemoVerif.Isolation
 
@@ -17,7 +18,7 @@ section Cache
 variable {K : Type} [DecidableEq K] {Ev : Type}
 
 /-- the isolated replays of all conversations of a schedule -/
-def isoRuns (key : List Msg → K) (conv : Bool → Msg → List Ev) (turn : List Ev → Msg × List Ev)
+def isoRuns (key : List Msg → K) (conv : List Msg → List Ev) (turn : List Ev → Msg × List Ev)
     (s : List (Nat × List Msg)) : Nat → List (Nat × Step Ev) :=
   fun c => runT key conv turn [] (ofConv c s)
 
@@ -29,7 +30,7 @@ def isoRuns (key : List Msg → K) (conv : Bool → Msg → List Ev) (turn : Lis
     history of one is a proper prefix of a request of the other): such conversations must have stored the
     same events for it; it is vacuous for conversations with different messages (`isolated_if_disjoint`). -/
 theorem isolated_if_injective (key : List Msg → K) (hinj : ∀ a b, key a = key b → a = b)
-    (conv : Bool → Msg → List Ev) (turn : List Ev → Msg × List Ev) (s : List (Nat × List Msg))
+    (conv : List Msg → List Ev) (turn : List Ev → Msg × List Ev) (s : List (Nat × List Msg))
     (hc : Compatible (isoRuns key conv turn s)) (c : Nat) :
     ofConv c (runT key conv turn [] s) = runT key conv turn [] (ofConv c s) := by
   have := isolation_general key conv turn (isoRuns key conv turn s)
@@ -46,7 +47,7 @@ theorem compatible_of_disjoint (L : Nat → List (Nat × Step Ev)) (h : Disjoint
 
 /-- Conversations with different message histories: injective key ⇒ isolation, for all interleavings. -/
 theorem isolated_if_disjoint (key : List Msg → K) (hinj : ∀ a b, key a = key b → a = b)
-    (conv : Bool → Msg → List Ev) (turn : List Ev → Msg × List Ev) (s : List (Nat × List Msg))
+    (conv : List Msg → List Ev) (turn : List Ev → Msg × List Ev) (s : List (Nat × List Msg))
     (hd : Disjoint (isoRuns key conv turn s)) (c : Nat) :
     ofConv c (runT key conv turn [] s) = runT key conv turn [] (ofConv c s) :=
   isolated_if_injective key hinj conv turn s (compatible_of_disjoint _ hd) c
@@ -57,7 +58,7 @@ theorem isolated_if_disjoint (key : List Msg → K) (hinj : ∀ a b, key a = key
     of the open finding `history-cache-key-collision`).
     Full statement (false for `cacheKeyAsIs`, see `as_is_counterexample`): the same without `hinj`. -/
 theorem isolated_partial (key : List Msg → K)
-    (conv : Bool → Msg → List Ev) (turn : List Ev → Msg × List Ev) (s : List (Nat × List Msg))
+    (conv : List Msg → List Ev) (turn : List Ev → Msg × List Ev) (s : List (Nat × List Msg))
     (hinj : InjOn key (isoRuns key conv turn s))
     (hc : Compatible (isoRuns key conv turn s)) (c : Nat) :
     ofConv c (runT key conv turn [] s) = runT key conv turn [] (ofConv c s) := by
@@ -71,7 +72,7 @@ theorem isolated_partial (key : List Msg → K)
     interleaving gives every conversation exactly its isolated replay.  `Compatible` is derived, not assumed:
     in a turn-by-turn conversation the stored events are a function of the message history. -/
 theorem isolated_turn_by_turn (key : List Msg → K) (hinj : ∀ a b, key a = key b → a = b)
-    (conv : Bool → Msg → List Ev) (turn : List Ev → Msg × List Ev) (s : List (Nat × List Msg))
+    (conv : List Msg → List Ev) (turn : List Ev → Msg × List Ev) (s : List (Nat × List Msg))
     (htt : TurnByTurn (isoRuns key conv turn s)) (c : Nat) :
     ofConv c (runT key conv turn [] s) = runT key conv turn [] (ofConv c s) :=
   isolated_if_injective key hinj conv turn s (compatible_of_turn_by_turn key conv turn s htt) c
@@ -81,12 +82,45 @@ end Cache
 /-- `_get_events_for_messages` continues from the longest proper prefix of the request that has a cache entry,
     and converts exactly the remaining messages (declarative specification of `eventsFor`). -/
 theorem eventsFor_longest_prefix {K : Type} [DecidableEq K] {Ev : Type} (key : List Msg → K)
-    (conv : Bool → Msg → List Ev) (C : Cache K Ev) (msgs : List Msg) :
-    ∃ p ev, eventsFor key conv C msgs = ev ++ convertTail conv (msgs.drop p) ∧ p ≤ msgs.length - 1 ∧
+    (conv : List Msg → List Ev) (C : Cache K Ev) (msgs : List Msg) :
+    ∃ p ev, eventsFor key conv C msgs = ev ++ conv (msgs.drop p) ∧ p ≤ msgs.length - 1 ∧
       (p = 0 → ev = []) ∧ (0 < p → find (key (msgs.take p)) C = some ev) ∧
       (∀ q, p < q → q < msgs.length → find (key (msgs.take q)) C = none) := by
   obtain ⟨h1, h2, h3, h4⟩ := lookupLongest_spec key C msgs (msgs.length - 1)
   exact ⟨_, _, rfl, h1, h2, h3, fun q a b => h4 q a (by omega)⟩
+
+/-! ### the conversion of the current source (`convTailC`): declarative specification
+
+  Every tail falls in exactly one of three classes: it contains no user/assistant message at all, its last
+  user/assistant message is a user message (the new turn), or it is an assistant message (already answered). -/
+
+/-- The new turn: the last user message that is only followed by messages that are neither user nor assistant
+    messages gets no `UserMessage` and its `UtteranceUserActionFinished` is the LAST event of the request —
+    whatever follows it (a trailing context/system/event message does not make it an already processed turn). -/
+theorem convTailC_new_turn (pre post : List Msg) (u : Msg) (hu : u.role = rUser) (hpost : ∀ m ∈ post, Neutral m) :
+    convTailC (pre ++ u :: post)
+      = pre.flatMap (convC false) ++ post.flatMap (convC false) ++ [.userFinished u.text] := by
+  unfold convTailC
+  rw [convertTail_new_turn convC newTurnC pre post u hu hpost]
+  simp [convC, hu, newTurnC]
+
+/-- A tail whose last user/assistant message is an assistant message has no new turn: every message is converted
+    as an already processed one. -/
+theorem convTailC_answered (pre post : List Msg) (a : Msg) (ha : a.role = rAssistant) (hpost : ∀ m ∈ post, Neutral m) :
+    convTailC (pre ++ a :: post) = (pre ++ a :: post).flatMap (convC false) :=
+  convertTail_no_new_turn convC newTurnC _ (newTurnIdx_assistant pre post a ha hpost)
+
+/-- A tail without user and assistant messages has no new turn. -/
+theorem convTailC_neutral (l : List Msg) (hl : ∀ m ∈ l, Neutral m) : convTailC l = l.flatMap (convC false) :=
+  convertTail_no_new_turn convC newTurnC _ (newTurnIdx_neutral l hl)
+
+/-- the witness of the repaired defect (C01, /repo 46a7ec9): `[user "hi", context {}]` -/
+example : convTailC [⟨rUser, ['h', 'i']⟩, ⟨rContext, ['{', '}']⟩]
+    = [.contextUpdate ['{', '}'], .userFinished ['h', 'i']] := by decide
+
+example : convTailC [⟨rUser, ['a']⟩, ⟨rAssistant, ['b']⟩, ⟨rUser, ['c']⟩, ⟨rUser, ['d']⟩, ⟨rEvent, ['e']⟩]
+    = [.userFinished ['a'], .userMessage ['a'], .startBot ['b'], .botFinished ['b'],
+       .userFinished ['c'], .userMessage ['c'], .raw ['e'], .userFinished ['d']] := by decide
 
 /-- The proposed key (`len(role):role len(text):text` per message, every role) is injective on all
     message lists over all strings. -/
@@ -95,7 +129,7 @@ theorem key_injective : ∀ a b : List Msg, cacheKeyLP a = cacheKeyLP b → a = 
 
 /-- … hence isolation with the proposed key (instance of `isolated_if_injective`). -/
 theorem isolated_with_proposed_key {Ev : Type}
-    (conv : Bool → Msg → List Ev) (turn : List Ev → Msg × List Ev) (s : List (Nat × List Msg))
+    (conv : List Msg → List Ev) (turn : List Ev → Msg × List Ev) (s : List (Nat × List Msg))
     (hc : Compatible (isoRuns cacheKeyLP conv turn s)) (c : Nat) :
     ofConv c (runT cacheKeyLP conv turn [] s) = runT cacheKeyLP conv turn [] (ofConv c s) :=
   isolated_if_injective cacheKeyLP key_injective conv turn s hc c
@@ -137,17 +171,17 @@ def stepEvents (l : List (Nat × Step CEv)) : List (List CEv) := l.map (·.2.eve
 /-- With the key of the current source, conversation 1 is continued from conversation 0's cached
     events on the shared instance, but not when replayed alone. -/
 theorem as_is_counterexample :
-    stepEvents (ofConv 1 (runT cacheKeyAsIs convC turnW [] schedW))
+    stepEvents (ofConv 1 (runT cacheKeyAsIs convTailC turnW [] schedW))
       = [[.userFinished ['a'], .opaque 0, .userFinished ['x']]] ∧
-    stepEvents (runT cacheKeyAsIs convC turnW [] (ofConv 1 schedW))
+    stepEvents (runT cacheKeyAsIs convTailC turnW [] (ofConv 1 schedW))
       = [[.userFinished ['a', ':', 'b'], .userMessage ['a', ':', 'b'], .userFinished ['x']]] := by
   decide
 
 /-- the same schedule with the stand-in injective key `id` behaves like the isolated replay (sanity
     test of the model on the witness; the general fact is `isolated_if_injective`) -/
 example :
-    stepEvents (ofConv 1 (runT (fun m => m) convC turnW [] schedW))
-      = stepEvents (runT (fun m => m) convC turnW [] (ofConv 1 schedW)) := by
+    stepEvents (ofConv 1 (runT (fun m => m) convTailC turnW [] schedW))
+      = stepEvents (runT (fun m => m) convTailC turnW [] (ofConv 1 schedW)) := by
   decide
 
 /-- `Compatible` cannot be dropped even for an injective key (here: the identity): conversation 1 sends
@@ -157,15 +191,15 @@ example :
     the message history only, not by the conversation.) -/
 theorem compatible_needed_counterexample :
     let s : List (Nat × List Msg) := [(0, [u ['a']]), (1, [u ['a'], a ['b'], u ['x']])]
-    stepEvents (ofConv 1 (runT (fun m => m) convC turnW [] s))
+    stepEvents (ofConv 1 (runT (fun m => m) convTailC turnW [] s))
       = [[.userFinished ['a'], .opaque 0, .userFinished ['x']]] ∧
-    stepEvents (runT (fun m => m) convC turnW [] (ofConv 1 s))
+    stepEvents (runT (fun m => m) convTailC turnW [] (ofConv 1 s))
       = [[.userFinished ['a'], .userMessage ['a'], .startBot ['b'], .botFinished ['b'], .userFinished ['x']]] := by
   decide
 
 /-- non-vacuity of `isolated_if_disjoint`: the two conversations of the witness are `Disjoint`
     (their genuine histories are unrelated) under an injective key -/
-example : Disjoint (isoRuns (fun m : List Msg => m) convC turnW schedW) := by
+example : Disjoint (isoRuns (fun m : List Msg => m) convTailC turnW schedW) := by
   intro c c' hne x' hx' x hx hp
   obtain ⟨p, hp0, hp1, hp2⟩ := hp
   by_cases h0 : c = 0
@@ -192,7 +226,7 @@ example : Disjoint (isoRuns (fun m : List Msg => m) convC turnW schedW) := by
       simp [isoRuns, ofConv, schedW, runT, e0, e1] at hx
 
 /-- non-vacuity: two identical turn-by-turn conversations of two turns (with the witness turn function) -/
-example : TurnByTurn (isoRuns (fun m : List Msg => m) convC turnW
+example : TurnByTurn (isoRuns (fun m : List Msg => m) convTailC turnW
     [(0, [u ['a']]), (1, [u ['a']]), (1, [u ['a'], a ['b'], u ['x']]), (0, [u ['a'], a ['b'], u ['x']])]) := by
   intro c
   by_cases h0 : c = 0
@@ -210,7 +244,7 @@ example : TurnByTurn (isoRuns (fun m : List Msg => m) convC turnW
     isolated on a shared instance, for all interleavings — instance of `isolated_partial`. Everything outside
     (a ':' in any text, two user messages in a row, context / event / exception messages) is the region of
     the open finding `history-cache-key-collision`. -/
-theorem as_is_isolated_clean {Ev : Type} (conv : Bool → Msg → List Ev) (turn : List Ev → Msg × List Ev)
+theorem as_is_isolated_clean {Ev : Type} (conv : List Msg → List Ev) (turn : List Ev → Msg × List Ev)
     (s : List (Nat × List Msg))
     (hclean : CleanRun (isoRuns cacheKeyAsIs conv turn s))
     (htt : TurnByTurn (isoRuns cacheKeyAsIs conv turn s)) (c : Nat) :
@@ -219,9 +253,9 @@ theorem as_is_isolated_clean {Ev : Type} (conv : Bool → Msg → List Ev) (turn
     (compatible_of_turn_by_turn cacheKeyAsIs conv turn s htt) c
 
 /-- non-vacuity of `as_is_isolated_clean`: two identical turn-by-turn conversations, separator-free -/
-example : CleanRun (isoRuns cacheKeyAsIs convC turnW
+example : CleanRun (isoRuns cacheKeyAsIs convTailC turnW
     [(0, [u ['a']]), (1, [u ['a']]), (1, [u ['a'], a ['b'], u ['x']]), (0, [u ['a'], a ['b'], u ['x']])]) ∧
-    TurnByTurn (isoRuns cacheKeyAsIs convC turnW
+    TurnByTurn (isoRuns cacheKeyAsIs convTailC turnW
     [(0, [u ['a']]), (1, [u ['a']]), (1, [u ['a'], a ['b'], u ['x']]), (0, [u ['a'], a ['b'], u ['x']])]) := by
   constructor
   · intro c x hx
